@@ -53,6 +53,7 @@ def gen_case(rng):
     src_stdin = rng.random() < 0.3
     common = []
     stdin = None
+    big_distance = None
     if src_stdin:
         schema = dict(core=[("var", "Major"), ("var", "Minor"), ("var", "Patch")],
                       extra_core=[("var", "Epoch"), ("var", "PreRelease"), ("var", "Post"), ("var", "Dev")], build=[("var", "BumpedBranch")])
@@ -63,6 +64,9 @@ def gen_case(rng):
         if v["dev"] is not None and rng.random() < 0.7:
             v["dev"] = None
         v["bumped_branch"] = rand_branch(rng) if rng.random() < 0.9 else None
+        if rng.random() < 0.06:
+            # "for every ... distance": the variable is a u64; only a stdin object (or a huge history) can carry more than the --distance option takes
+            v["distance"] = big_distance = rng.choice([2 ** 32, 2 ** 32 + 5, 10 ** 10, 2 ** 40])
         stdin = ron.zerv_to_ron(schema, v)
         common += ["--source", "stdin"]
     else:
@@ -73,7 +77,7 @@ def gen_case(rng):
         common += ["--source", "none", "--tag-version", tag]
         if rng.random() < 0.9:
             common += ["--bumped-branch=" + (rand_branch(rng))]
-    d = rng.choice([None, None, 0, 1, 2, 10, 1000])
+    d = rng.choice([None, None, 0, 1, 2, 10, 1000]) if big_distance is None else None
     clean = False
     if d is not None:
         common += ["--distance", str(d)]
@@ -108,7 +112,7 @@ def gen_case(rng):
     rules = rand_rules(rng)
     if rules is not None:
         fopts += ["--branch-rules", F.rules_to_ron(rules)]
-    return dict(common=common, fopts=fopts, stdin=stdin, opts=opts, rules=rules, hlen=hlen)
+    return dict(common=common, fopts=fopts, stdin=stdin, opts=opts, rules=rules, hlen=hlen, big_distance=big_distance)
 
 
 def _cli(pr, argv, stdin):
@@ -124,6 +128,7 @@ def _cli(pr, argv, stdin):
     return ("err", r.get("err") or r.get("text") or repr(r))
 
 
+_RE_PARSE_ANY = __import__("re").compile(r"Failed to parse '(\d+)': number too large to fit in target type")
 _RE_PARSE = __import__("re").compile(r"Failed to parse '(\d{10})': number too large to fit in target type")
 
 
@@ -200,7 +205,10 @@ def judge_case(pr, c, hashes, st):
         return out
     if got[0] == "err":
         msg = got[1]
-        if exp["num_source"] == "hash":
+        if c.get("big_distance") is not None and _RE_PARSE_ANY.search(msg) and int(_RE_PARSE_ANY.search(msg).group(1)) == c["big_distance"] > 2 ** 32 - 1:
+            # recorded finding (same u32 bump argument as the length-10 hash): the commit-mode post bump cannot carry a distance above u32
+            out.append(("flow-distance-above-u32-overflow", "flow refused an object with distance %d: %s" % (c["big_distance"], msg[:160])))
+        elif exp["num_source"] == "hash":
             # "every documented length works for every branch"
             sig = "flow-hash-len10-overflow" if _is_len10_overflow(c["hlen"], msg) else "flow-hash-length-fails"
             out.append((sig, "flow refused branch %r with --hash-branch-len %d: %s" % (branch, c["hlen"], msg[:160])))
